@@ -561,13 +561,18 @@ class Roles:
         r = {}
 
         def bool_in_arm(handler_variant, mode_variant, value=True):
-            for h in w.handler(handler_variant):
-                m, i, arm = arm_for(w, h, mode_variant)
+            # the arm may live in the handler or in a helper it delegates to (`set_modes(modes, enabled)`)
+            cands = list(w.handler(handler_variant)) + [f for f in sorted(w.handler_reach(handler_variant)) if f not in w.handler(handler_variant) and f in w.facts.hir]
+            for h in cands:
+                try:
+                    m, i, arm = arm_for(w, h, mode_variant)
+                except Exception:
+                    continue
                 if arm is None:
                     continue
                 for sf, rhs in self_assigns(arm["body"]):
                     rhs = H.unwrap(rhs)
-                    if len(sf) == 1 and H.is_k(rhs, "lit") and rhs.get("t") == "bool":
+                    if len(sf) == 1 and tf.get(sf[0], {}).get("ty", {}).get("s") == "bool" and (H.is_k(rhs, "lit") and rhs.get("t") == "bool" or rhs.get("ty") == "bool"):
                         return sf[0]
             return None
 
@@ -882,4 +887,66 @@ def mode_arm_siblings(ctx, w, S, R, rule):
             ctx.check(a == b, rule, "%s::%s" % (enum, v),
                       "setting %s writes %s but resetting it writes %s: one direction of the mode switch changes state the other does not" % (v, sorted(".".join(p) for p in a), sorted(".".join(p) for p in b)),
                       loc=w.fn_loc(arms[1][0]), sample={"mode": v, "set_writes": sorted(".".join(p) for p in a), "reset_writes": sorted(".".join(p) for p in b)})
-    ctx.floor(rule, 5, "flag-like modes")
+    ctx.floor(rule, 3, "flag-like modes")
+
+
+class Deferred:
+    """Proxy for rule groups that have BOTH a shape-matching form and a semantic (interpretive) decision of the same
+    clause: when the semantic decision succeeded, a failure of the shape-matching form is not an alarm (the code was
+    merely written differently); when the semantic decision failed or was impossible, the shape rules stand."""
+
+    def __init__(self, ctx, rules, semantic_ok):
+        object.__setattr__(self, "_c", ctx)
+        object.__setattr__(self, "_rules", set(rules))
+        object.__setattr__(self, "_sem", bool(semantic_ok))
+
+    def __getattr__(self, k):
+        return getattr(self._c, k)
+
+    def __setattr__(self, k, v):
+        setattr(self._c, k, v)
+
+    def _soft(self, rule):
+        return self._sem and rule in self._rules
+
+    def check(self, cond, rule, subject, message, loc=None, sample=None, detail=None):
+        if not cond and self._soft(rule):
+            self._c.ok(rule, subject, {"shape_not_recognised": str(message)[:160], "decided": "by the semantic form of this rule"})
+            return True
+        return self._c.check(cond, rule, subject, message, loc=loc, sample=sample, detail=detail)
+
+    def violation(self, rule, subject, message, loc=None, detail=None):
+        if self._soft(rule):
+            self._c.ok(rule, subject, {"shape_not_recognised": str(message)[:160], "decided": "by the semantic form of this rule"})
+            return
+        return self._c.violation(rule, subject, message, loc=loc, detail=detail)
+
+    def missing_anchor(self, rule, anchor, why=""):
+        if self._soft(rule):
+            self._c.ok(rule, "anchor:" + anchor, {"shape_not_recognised": anchor, "decided": "by the semantic form of this rule"})
+            return
+        return self._c.missing_anchor(rule, anchor, why)
+
+    def floor(self, rule, floor, what):
+        if self._soft(rule):
+            return
+        return self._c.floor(rule, floor, what)
+
+
+def gc_verdict(ctx, w, S, T, rule):
+    """Semantic decision of the trimming clause (interpretation of the buffer's gc on symbolic rows); reported under `rule`."""
+    from rules import prims
+    import hir as _H
+    ctx.rule(rule, "the buffer's gc interpreted on symbolic rows (1..2 rows, 0..5 scrollback lines, no limit / soft 0..3 with hard = soft or soft+1, flag set / clear): nothing happens without the flag or "
+                   "without a limit; with both, iff size > hard exactly the oldest size - soft lines are removed and handed out in order; the flag is consumed; Buffer::new stores soft = L, hard = L + L/10")
+    try:
+        ok, info = prims.gc_semantics(w, S, T)
+    except Exception as ex:
+        ctx.note("semantic form of the trimming rule not applicable: %s" % (ex,))
+        return None
+    if ok:
+        ctx.ok(rule, "all", {"cases": info})
+        ctx.rule_counts[rule] = info
+        return True
+    ctx.violation(rule, "gc", str(info), loc=w.fn_loc(T.buf_gc))
+    return False
